@@ -222,6 +222,13 @@ trait Field: Sync + Send {
     fn cas(&self, i: usize, old: u64, new: u64) -> Result<u64, u64>;
     fn fetch_update(&self, i: usize, new: Option<u64>) -> Result<u64, u64>;
     fn describe(&self, i: usize) -> String;
+    /// Masked accessors (header metadata of 8 bits or more only).
+    fn store_masked(&self, _i: usize, _v: u64, _mask: u64) -> bool {
+        false
+    }
+    fn load_masked(&self, _i: usize, _mask: u64) -> Option<u64> {
+        None
+    }
 }
 
 struct SideFields {
@@ -322,7 +329,12 @@ fn run_fields(prop: &'static str, spec: &RunSpec, f: Arc<dyn Field>, nfields: us
     let n = spec.programs.len();
     let finals: Arc<Mutex<Vec<(usize, u64)>>> = Arc::new(Mutex::new(Vec::new()));
     // four more regions right behind the single-writer ones are shared counters
-    let shared = Arc::new(Shared { fields: (nfields..nfields + 4).collect(), sums: (0..4).map(|_| std::sync::atomic::AtomicU64::new(0)).collect() });
+    let shared = Arc::new(Shared {
+        fields: (nfields..nfields + 4).collect(),
+        sums: (0..4).map(|_| std::sync::atomic::AtomicU64::new(0)).collect(),
+        masked: None,
+        masked_hist: Mutex::new(BTreeSet::new()),
+    });
     spawn_field_threads(prop, spec, f.clone(), nfields, n.max(1), finals.clone(), (0..nfields + 4).collect(), shared.clone());
     join_all(n);
     check_shared(prop, &f, &shared);
@@ -422,6 +434,19 @@ impl Field for HeaderFields {
     fn describe(&self, i: usize) -> String {
         format!("header field #{} (bit offset {}, {} bits)", i, self.fields[i].0, self.fields[i].1)
     }
+    fn store_masked(&self, i: usize, v: u64, mask: u64) -> bool {
+        if self.fields[i].1 < 8 {
+            return false;
+        }
+        with_ty!(self.fields[i].1 as u32, T, { self.spec(i).store_atomic::<T>(self.h(), cv(v), Some(cv(mask)), Ordering::SeqCst) });
+        true
+    }
+    fn load_masked(&self, i: usize, mask: u64) -> Option<u64> {
+        if self.fields[i].1 < 8 {
+            return None;
+        }
+        Some(with_ty!(self.fields[i].1 as u32, T, { uc(self.spec(i).load_atomic::<T>(self.h(), Some(cv(mask)), Ordering::SeqCst)) }))
+    }
 }
 
 /// Per-field width wrapper so that `run_fields` can mask operands per field.
@@ -460,6 +485,12 @@ impl Field for OneWidth {
     }
     fn describe(&self, i: usize) -> String {
         self.inner.describe(self.map[i])
+    }
+    fn store_masked(&self, i: usize, v: u64, mask: u64) -> bool {
+        self.inner.store_masked(self.map[i], v, mask)
+    }
+    fn load_masked(&self, i: usize, mask: u64) -> Option<u64> {
+        self.inner.load_masked(self.map[i], mask)
     }
 }
 
@@ -504,7 +535,18 @@ fn header(spec: RunSpec) -> ! {
     let mut handles = Vec::new();
     for (wi, wdt) in widths.iter().enumerate() {
         let map: Vec<usize> = (0..nf).filter(|i| fields[*i].1 == *wdt).collect();
-        let threads: Vec<usize> = (0..nthreads).filter(|t| t % widths.len() == wi).collect();
+        // every width class gets at least two simulated threads (programs may be reused by a
+        // second class: they are only operation lists), so that shared and masked fields really
+        // are accessed concurrently
+        let mut threads: Vec<usize> = (0..nthreads).filter(|t| t % widths.len() == wi).collect();
+        let mut extra = wi + 1;
+        while threads.len() < 2.min(nthreads) {
+            let t = extra % nthreads;
+            if !threads.contains(&t) {
+                threads.push(t);
+            }
+            extra += 1;
+        }
         handles.push((map, threads, *wdt));
     }
     // Build one combined program set per class and run them all concurrently.
@@ -523,7 +565,23 @@ fn header(spec: RunSpec) -> ! {
         let k = threads.len();
         let nfields = map.len();
         let sh_fields: Vec<usize> = if nfields >= 3 { vec![nfields - 1] } else { vec![] };
-        let shared = Arc::new(Shared { sums: sh_fields.iter().map(|_| std::sync::atomic::AtomicU64::new(0)).collect(), fields: sh_fields });
+        // for widths of 8 bits or more with enough fields: one field is written with a mask
+        let masked = if *wdt >= 8 && nfields >= 2 {
+            let mi = if nfields >= 3 { nfields - 2 } else { nfields - 1 };
+            let mask = (0x5a5a_5a5a_5a5a_5a5au64 ^ filler) & width_mask(*wdt as u32) | 1;
+            let v0 = mask & mask.wrapping_neg();
+            f.store_masked(mi, v0, mask);
+            Some((mi, mask, v0))
+        } else {
+            None
+        };
+        let hist: BTreeSet<u64> = masked.iter().map(|m| m.2).collect();
+        let shared = Arc::new(Shared {
+            sums: sh_fields.iter().map(|_| std::sync::atomic::AtomicU64::new(0)).collect(),
+            fields: sh_fields,
+            masked: masked.map(|m| (m.0, m.1)),
+            masked_hist: Mutex::new(hist),
+        });
         shared_groups.push((f.clone(), shared.clone()));
         spawn_field_threads("C23", &sub, f, nfields, k, finals.clone(), map.clone(), shared);
     }
@@ -572,6 +630,11 @@ fn header(spec: RunSpec) -> ! {
 struct Shared {
     fields: Vec<usize>,
     sums: Vec<std::sync::atomic::AtomicU64>,
+    /// (field, mask): thread 0 of the group stores masked values (ops 13), every thread may read
+    /// them with the same mask (op 14) and must see one of the values ever stored, never a mix
+    /// and never the bits half-written.
+    masked: Option<(usize, u64)>,
+    masked_hist: Mutex<BTreeSet<u64>>,
 }
 
 fn check_shared(prop: &'static str, f: &Arc<dyn Field>, sh: &Shared) {
@@ -597,14 +660,37 @@ fn spawn_field_threads(prop: &'static str, spec: &RunSpec, f: Arc<dyn Field>, nf
         let map = map.clone();
         let shared = shared.clone();
         simrt::spawn(&format!("accessor{}w{}", t, f.bits()), move || {
-            let mine: Vec<usize> = (0..nfields).filter(|i| i % nthreads == t && !shared.fields.contains(i)).collect();
+            let mine: Vec<usize> = (0..nfields)
+                .filter(|i| i % nthreads == t && !shared.fields.contains(i) && shared.masked.map_or(true, |m| m.0 != *i))
+                .collect();
             let mut model: BTreeMap<usize, u64> = BTreeMap::new();
             let mask = width_mask(f.bits());
             for (k, a, b, _c) in ops {
-                if mine.is_empty() && k != 11 && k != 12 {
+                if mine.is_empty() && !(11..=14).contains(&k) {
                     continue;
                 }
                 op_boundary();
+                if k == 13 || k == 14 {
+                    if let Some((fi, mask)) = shared.masked {
+                        if k == 13 && t == 0 {
+                            // every stored value has the lowest masked bit set: zero is never stored
+                            let v = (b & mask) | (mask & mask.wrapping_neg());
+                            shared.masked_hist.lock().unwrap().insert(v);
+                            f.store_masked(fi, v, mask);
+                            with_world(|w| w.count("masked_stores"));
+                        } else if let Some(g) = f.load_masked(fi, mask) {
+                            if !shared.masked_hist.lock().unwrap().contains(&g) {
+                                violation(
+                                    prop,
+                                    "torn-masked-store",
+                                    format!("masked load (mask {:#x}) of the {} returned {:#x}, which was never stored there", mask, f.describe(fi), g),
+                                );
+                            }
+                            with_world(|w| w.count("masked_loads"));
+                        }
+                    }
+                    continue;
+                }
                 if k == 11 || k == 12 {
                     if !shared.fields.is_empty() {
                         let pos = a as usize % shared.fields.len();
